@@ -1,7 +1,7 @@
 #!/bin/sh
 # run_seeded.sh <seed-id> [check args...] : run the property's check against a scratch copy of /repo with the seeded patch applied
 ID="$1"; shift
-PROP=$(echo "$ID" | cut -d- -f1)
+PROP=${PROP:-$(echo "$ID" | cut -d- -f1)}
 S=$(mktemp -d /dev/shm/seedrun_XXXXXX)
 rsync -a --exclude .git /repo/ "$S/repo/"
 (cd "$S/repo" && patch -s -p1 < /verif/seeded/$ID/patch.diff) || { echo "patch failed"; rm -rf "$S"; exit 9; }
